@@ -117,7 +117,7 @@ theorem cr_crlf (s : Str) : cr (crlf s) = nlAux false s := by
 
 /-- `normalize` in terms of the scanners -/
 theorem normalize_eq (tab : Nat) (s : Str) :
-    normalize tab s = wsLinesAux none (expandtabsAux tab 0 (nlAux false (stripCtl s) ++ ['\n', '\n'])) := by
+    normalize tab s = wsLinesAux (some 0) (expandtabsAux tab 0 (nlAux false (stripCtl s) ++ ['\n', '\n'])) := by
   simp only [normalize, wsLines, expandtabs, append2nl, cr_crlf]
 
 theorem nlAux_append (b : Bool) (x y : Str) : nlAux b (x ++ y) = nlAux b x ++ nlAux (endCR b x) y := by
@@ -285,12 +285,12 @@ theorem expandtabsAux_snoc_nl (tab n : Nat) (x : Str) :
   rw [expandtabsAux_append]; simp [expandtabsAux]
 
 /-- after a line feed the tab expander is at column 0 and the whitespace-line scanner in state `some 0` -/
-theorem pipeline_split (tab : Nat) (x y : Str) :
-    wsLinesAux none (expandtabsAux tab 0 (x ++ '\n' :: y)) =
-      wsLinesAux none (expandtabsAux tab 0 x ++ ['\n']) ++ wsLinesAux (some 0) (expandtabsAux tab 0 y) := by
+theorem pipeline_split (st : Option Nat) (tab : Nat) (x y : Str) :
+    wsLinesAux st (expandtabsAux tab 0 (x ++ '\n' :: y)) =
+      wsLinesAux st (expandtabsAux tab 0 x ++ ['\n']) ++ wsLinesAux (some 0) (expandtabsAux tab 0 y) := by
   have h : x ++ '\n' :: y = (x ++ ['\n']) ++ y := by simp
   rw [h, expandtabsAux_append, colAfter_append_nl, expandtabsAux_snoc_nl, List.append_assoc]
-  exact wsLinesAux_split none _ _
+  exact wsLinesAux_split st _ _
 
 /-- unless it swallows the line feed of a CRLF at the very start, the output of the line-ending scanner on a text
     ending with a line feed ends with a line feed -/
@@ -399,7 +399,7 @@ theorem normalize_ws_line (tab : Nat) (a ws b : Str) (hws : ∀ c ∈ ws, isBlan
     rw [e2, nlAux_append false (stripCtl a ++ ['\n']), endCR_append_singleton, hq]
     simp only [show decide ('\n' = '\r') = false from rfl, n2]
     simp
-  rw [normalize_eq, normalize_eq, L, R, pipeline_split, pipeline_split, hm, wsLinesAux_spaces_nl]
+  rw [normalize_eq, normalize_eq, L, R, pipeline_split _ _ q, pipeline_split _ _ q, hm, wsLinesAux_spaces_nl]
   simp [expandtabsAux, wsLinesAux]
 
 /-! ### C09 (c): tabs -/
@@ -710,7 +710,7 @@ theorem normalize_join (tab : Nat) (ls : List Str) (e₁ e₂ : Str)
     (fun e he => by rw [List.eq_of_mem_replicate he]; exact h₂)
     (splitsCRLF_replicate _ _ _ (by omega)) (splitsCRLF_replicate _ _ _ (by omega))
 
-/-! ### leading line feeds, and the first line (F-C09-1) -/
+/-! ### leading line feeds, and the first line (F-C09-1, repaired in a0e7e3c) -/
 
 theorem wsLinesAux_some_visible (n m : Nat) (c : Char) (h1 : c ≠ ' ') (h2 : c ≠ '\n') (z : Str) :
     wsLinesAux (some n) (List.replicate m ' ' ++ c :: z) = List.replicate (n + m) ' ' ++ c :: wsLinesAux none z := by
@@ -766,63 +766,34 @@ theorem mem_takeWhile_true (p : Char → Bool) (l : Str) (x : Char) (h : x ∈ l
       · exact ih h
     · rw [List.takeWhile_cons_of_neg hc] at h; simp at h
 
-/-- when the first line is empty or has a visible character, the scanner's start state makes no difference -/
-theorem wsLines_start_irrelevant (tab : Nat) (s : Str) (h : firstLineOk s = true) :
-    wsLinesAux (some 0) (expandtabsAux tab 0 (nlAux false (stripCtl s) ++ ['\n', '\n'])) =
-      wsLinesAux none (expandtabsAux tab 0 (nlAux false (stripCtl s) ++ ['\n', '\n'])) := by
-  unfold firstLineOk at h
-  cases hs : stripCtl s with
-  | nil => simp [nlAux, expandtabsAux, wsLinesAux]
-  | cons c r =>
-    rw [hs] at h
-    simp only [Bool.or_eq_true, decide_eq_true_eq] at h
-    rcases h with (h | h) | h
-    · subst h; simp [nlAux, expandtabsAux, wsLinesAux]
-    · subst h; simp [nlAux, expandtabsAux, wsLinesAux]
-    · generalize hp : (fun c : Char => decide (c = ' ') || decide (c = '\t')) = p at h
-      have hsplit : c :: r = (c :: r).takeWhile p ++ (c :: r).dropWhile p := List.takeWhile_append_dropWhile.symm
-      cases hd : (c :: r).dropWhile p with
-      | nil => rw [hd] at h; simp at h
-      | cons d r' =>
-        rw [hd] at h hsplit
-        simp only [Bool.and_eq_true, bne_iff_ne, ne_eq] at h
-        have hpd : p d = false := dropWhile_head_false p _ _ _ hd
-        have hd1 : d ≠ ' ' := by intro e; subst e; subst hp; simp at hpd
-        have hd2 : d ≠ '\t' := by intro e; subst e; subst hp; simp at hpd
-        have hw : ∀ x ∈ (c :: r).takeWhile p, x = ' ' ∨ x = '\t' := by
-          intro x hx
-          have := mem_takeWhile_true p _ _ hx
-          subst hp; simpa using this
-        have hl := isLine_of_blank _ hw
-        obtain ⟨m, n', hm⟩ := expandtabsAux_blank tab _ hw 0
-        have e1 : nlAux false (c :: r) ++ ['\n', '\n'] =
-            (c :: r).takeWhile p ++ (d :: (nlAux false r' ++ ['\n', '\n'])) := by
-          rw [hsplit, nlAux_append, nlAux_line _ _ hl, endCR_line _ _ hl, ← hsplit]
-          simp [nlAux, h.1, h.2]
-        rw [e1, hm]
-        have e2 : expandtabsAux tab n' (d :: (nlAux false r' ++ ['\n', '\n'])) =
-            d :: expandtabsAux tab (n' + 1) (nlAux false r' ++ ['\n', '\n']) := by
-          simp [expandtabsAux, hd2, h.1, h.2]
-        rw [e2, wsLinesAux_some_visible _ _ _ hd1 h.1, wsLinesAux_none_visible _ _ h.1, Nat.zero_add]
+/-- **whitespace-only first line** (the repair of F-C09-1, commit a0e7e3c): the scan starts at a line start, so the
+    first line is treated like every other line -/
+theorem normalize_ws_first_line (tab : Nat) (ws b : Str) (hws : ∀ c ∈ ws, isBlankish c = true) :
+    normalize tab (ws ++ '\n' :: b) = normalize tab ('\n' :: b) := by
+  have hw := stripCtl_blankish ws hws
+  have hl := isLine_of_blank _ hw
+  have hnl : ∀ t, stripCtl ('\n' :: t) = '\n' :: stripCtl t := by
+    intro t; rw [stripCtl_cons]; rfl
+  obtain ⟨m, hm⟩ := expandtabsAux_blank_nl tab (stripCtl ws) hw 0
+  have L : nlAux false (stripCtl (ws ++ '\n' :: b)) ++ ['\n', '\n'] =
+      stripCtl ws ++ '\n' :: (nlAux false (stripCtl b) ++ ['\n', '\n']) := by
+    rw [stripCtl_append, hnl, nlAux_append, nlAux_line _ _ hl, endCR_line _ _ hl]; simp [nlAux]
+  have R : nlAux false (stripCtl ('\n' :: b)) ++ ['\n', '\n'] =
+      '\n' :: (nlAux false (stripCtl b) ++ ['\n', '\n']) := by
+    rw [hnl]; simp [nlAux]
+  rw [normalize_eq, normalize_eq, L, R, hm, wsLinesAux_spaces_nl]
+  simp [expandtabsAux, wsLinesAux]
 
-theorem normalize_leading (tab : Nat) (s : Str) (k : Nat) (h : firstLineOk s = true) :
+theorem normalize_cons_nl (tab : Nat) (s : Str) : normalize tab ('\n' :: s) = '\n' :: normalize tab s := by
+  have hnl : stripCtl ('\n' :: s) = '\n' :: stripCtl s := by rw [stripCtl_cons]; rfl
+  rw [normalize_eq, normalize_eq, hnl]
+  simp [nlAux, expandtabsAux, wsLinesAux]
+
+theorem normalize_leading (tab : Nat) (s : Str) (k : Nat) :
     normalize tab (List.replicate k '\n' ++ s) = List.replicate k '\n' ++ normalize tab s := by
-  cases k with
+  induction k with
   | zero => simp
-  | succ k =>
-    have e0 : endCR false (List.replicate (k + 1) '\n') = false := by
-      rw [List.replicate_succ', endCR_append_singleton]; rfl
-    have e1 : nlAux false (stripCtl (List.replicate (k + 1) '\n' ++ s)) ++ ['\n', '\n'] =
-        List.replicate k '\n' ++ '\n' :: (nlAux false (stripCtl s) ++ ['\n', '\n']) := by
-      rw [stripCtl_append, stripCtl_replicate_nl, nlAux_append, nlAux_replicate_nl, e0, List.replicate_succ']
-      simp
-    rw [normalize_eq, normalize_eq, e1, pipeline_split, wsLines_start_irrelevant tab s h,
-      expandtabsAux_replicate_nl]
-    congr 1
-    have : List.replicate k '\n' ++ ['\n'] = '\n' :: List.replicate k '\n' := by
-      rw [← List.replicate_succ', List.replicate_succ]
-    rw [this, List.replicate_succ]
-    simp [wsLinesAux, wsLinesAux_replicate_nl]
+  | succ k ih => rw [List.replicate_succ, List.cons_append, normalize_cons_nl, ih]; rfl
 
 /-! ### normalising a normalised text -/
 
@@ -891,20 +862,20 @@ theorem normalize_normalize (tab : Nat) (s : Str) :
       subst this; decide
   rw [normalize_eq tab (normalize tab s), h1, h2, h3]
   -- the normalised text ends with a line feed
-  have hx : ∃ w, normalize tab s = wsLinesAux none (w ++ ['\n']) ++ ['\n'] := by
+  have hx : ∃ w, normalize tab s = wsLinesAux (some 0) (w ++ ['\n']) ++ ['\n'] := by
     refine ⟨expandtabsAux tab 0 (nlAux false (stripCtl s)), ?_⟩
     rw [normalize_eq]
     have : nlAux false (stripCtl s) ++ ['\n', '\n'] = nlAux false (stripCtl s) ++ '\n' :: ['\n'] := rfl
     rw [this, pipeline_split]
     simp [expandtabsAux, wsLinesAux]
   obtain ⟨w, hw⟩ := hx
-  have hi : wsLinesAux none (normalize tab s) = normalize tab s := by
-    rw [normalize_eq]; exact (wsLinesAux_idem _).1
-  have : normalize tab s ++ ['\n', '\n'] = wsLinesAux none (w ++ ['\n']) ++ '\n' :: ['\n', '\n'] := by
+  have hi : wsLinesAux (some 0) (normalize tab s) = normalize tab s := by
+    rw [normalize_eq]; exact (wsLinesAux_idem _).2 0
+  have : normalize tab s ++ ['\n', '\n'] = wsLinesAux (some 0) (w ++ ['\n']) ++ '\n' :: ['\n', '\n'] := by
     rw [hw]; simp
-  calc wsLinesAux none (normalize tab s ++ ['\n', '\n'])
-      = wsLinesAux none (wsLinesAux none (w ++ ['\n']) ++ '\n' :: ['\n', '\n']) := by rw [this]
-    _ = wsLinesAux none (normalize tab s) ++ wsLinesAux (some 0) ['\n', '\n'] := by rw [wsLinesAux_split, ← hw]
+  calc wsLinesAux (some 0) (normalize tab s ++ ['\n', '\n'])
+      = wsLinesAux (some 0) (wsLinesAux (some 0) (w ++ ['\n']) ++ '\n' :: ['\n', '\n']) := by rw [this]
+    _ = wsLinesAux (some 0) (normalize tab s) ++ wsLinesAux (some 0) ['\n', '\n'] := by rw [wsLinesAux_split, ← hw]
     _ = normalize tab s ++ ['\n', '\n'] := by rw [hi]; simp [wsLinesAux]
 
 /-! ### the blank-document test -/
